@@ -6,14 +6,17 @@ import (
 	"bufio"
 	"context"
 	"fmt"
+	"io"
 	"os"
 	"os/exec"
+	"path/filepath"
 	"strconv"
 	"strings"
 	"syscall"
 	"time"
 
 	"github.com/criyle/go-sandbox/container"
+	"github.com/criyle/go-sandbox/pkg/forkexec"
 	"github.com/criyle/go-sandbox/pkg/unixsocket"
 	"github.com/criyle/go-sandbox/ptracer"
 	"github.com/criyle/go-sandbox/zverif/vcore"
@@ -46,6 +49,22 @@ func ctlHelper() int {
 	scenario := os.Getenv("VERIF_CTL_SCENARIO")
 	treeScript := []string{"ignore", "fork", "3", "ignore", "fork", "2", "ignore", "pause", "pause", "daemon", "2", "ignore", "pause", "sleep", "100"}
 	switch scenario {
+	case "tracer_cred":
+		// a tracer driving forkexec directly, with an unprivileged identity for the tracee
+		n := 0
+		ptracer.VSetAfterWait(func(pid int, ws unix.WaitStatus) {
+			n++
+			ctlAnnounce(fmt.Sprintf("pt wait#%d", n))
+		})
+		s := append(append([]string{}, treeScript...), "pause")
+		w, _, _ := kPipe()
+		r := &forkexec.Runner{Args: append([]string{probePath}, s...), Env: []string{"A=B"}, Files: []uintptr{nullFile().Fd(), w.Fd(), nullFile().Fd()},
+			Ptrace: true, Seccomp: kFilterAllowAllBut([]string{"getppid"}, nil).SockFprog(),
+			Credential: &syscall.Credential{Uid: 65534, Gid: 65534, NoSetGroups: true}}
+		tr := ptracer.Tracer{Handler: ctlTraceHandler{}, Runner: r, Limit: bigLimit}
+		ctlAnnounce("pt start")
+		tr.Trace(context.Background())
+		ctlAnnounce("pt done")
 	case "tracer":
 		n := 0
 		ptracer.VSetAfterWait(func(pid int, ws unix.WaitStatus) {
@@ -68,7 +87,26 @@ func ctlHelper() int {
 			n++
 			ctlAnnounce(fmt.Sprintf("pt msg#%d %s:%s", n, dir, kind))
 		})
-		ct, err := kBuildContainer(nil, nil, nil)
+		var stderr io.Writer
+		if scenario == "container_stalled_stderr" {
+			// the container's stderr is a pipe nobody reads, already full
+			pr, pw, _ := os.Pipe()
+			_ = pr
+			syscall.SetNonblock(int(pw.Fd()), true)
+			junk := make([]byte, 4096)
+			for {
+				if _, err := syscall.Write(int(pw.Fd()), junk); err != nil {
+					break
+				}
+			}
+			syscall.SetNonblock(int(pw.Fd()), false)
+			stderr = pw
+		}
+		kInitCommand = nil
+		if scenario == "container_initcmd" {
+			kInitCommand = []string{"/probe/" + filepath.Base(probePath), "ignore", "sleep", "30000"}
+		}
+		ct, err := kBuildContainer(nil, nil, stderr)
 		if err != nil {
 			fmt.Fprintln(os.Stderr, "ctl: build:", err)
 			return 2
@@ -84,6 +122,9 @@ func ctlHelper() int {
 			s = append(s, "exit", "0")
 		}
 		e := &kExec{script: s, syncAfter: scenario == "container_syncafter"}
+		if scenario == "container_stalled_stderr" {
+			e.script = append(append([]string{}, treeScript...), "pause")
+		}
 		e.syncFunc = func(pid int) error { ctlAnnounce("pt sync"); return nil }
 		ct.exec(context.Background(), e)
 		ct.env.Reset()
@@ -92,6 +133,11 @@ func ctlHelper() int {
 	}
 	return 0
 }
+
+type ctlTraceHandler struct{}
+
+func (ctlTraceHandler) Handle(*ptracer.Context) ptracer.TraceAction { return ptracer.TraceAllow }
+func (ctlTraceHandler) Debug(v ...interface{})                      {}
 
 // descendants lists the host pids of all descendants of pid.
 func descendants(pid int) []int {
@@ -120,9 +166,15 @@ func descendants(pid int) []int {
 func c16Run(c *vcore.Ctx) *vcore.Violation {
 	const prop = "C16"
 	src := c.Src
-	scenario := src.Pick("scenario", "container", "container_syncafter", "tracer", "tracer")
+	scenario := src.Pick("scenario", "container", "container_syncafter", "tracer", "tracer", "tracer_cred", "container_initcmd", "container_stalled_stderr")
 	long := src.Bool(1, 2, "program_runs_forever")
+	if scenario == "container_initcmd" || scenario == "container_stalled_stderr" || scenario == "tracer_cred" {
+		long = true
+	}
 	killAt := src.Int(40, "killpoint")
+	if src.Bool(1, 2, "early_kill") {
+		killAt = src.Int(5, "early_killpoint") // the first few points of a scenario are where the mechanisms hand over
+	}
 	c.Logf("scenario=%s program-runs-forever=%v kill at announcement #%d", scenario, long, killAt)
 	self, _ := os.Executable()
 	cmd := exec.Command(self, "-test.run", "^$")
